@@ -95,7 +95,14 @@ def command_info(ns):
         if ns.multiple_messages:
             for bufr_message in generate_bufr_message(decoder, s, continue_on_error=ns.continue_on_error,
                                                       file_path=filename, info_only=True):
-                show_message_info(bufr_message)
+                try:
+                    show_message_info(bufr_message)
+                except PyBufrKitError as e:
+                    # The template is built here, outside the scan: a descriptor list
+                    # that cannot be turned into a template must not end the scan either.
+                    if not ns.continue_on_error:
+                        raise
+                    print('Continuing on next message and ignoring error: {}'.format(e), file=sys.stderr)
 
         elif ns.count_only:
             count = 0
